@@ -5,11 +5,13 @@ import (
 	"fmt"
 	"os"
 
+	"verif/sq/c01"
 	"verif/sq/rep"
 	"verif/sq/sqrun"
 )
 
 var checks = map[string]*sqrun.Check{
+	"C01": c01.Check,
 	"C08": rep.C08,
 	"C09": rep.C09,
 	"C18": rep.C18,
